@@ -17,14 +17,14 @@ Emit ==
       types == SetToSeq(TypesOf(l))
       nameTuples == {Cyc(keys, n, 1) : n \in 1..9} \cup {Cyc(keys, n, 2) : n \in 2..9}
                     \cup {Rev([j \in 1..Len(l) |-> l[j].key]), <<keys[1], "zz">>, <<"zz">>}
-      typeTuples == {Cyc(types, n, 1) : n \in 1..9} \cup {Cyc(types, n, 3) : n \in 2..9} \cup {<<types[1], "float64">>}
+      typeTuples == {Cyc(types, n, 1) : n \in 1..9} \cup {Cyc(types, n, 3) : n \in 2..9} \cup {<<types[1], "uintptr">>}
   IN PrintT(ToJson(
        [t |-> "shape", ck |-> Checksum(sh), boundary |-> (WithBoundary /\ sh \in BoundarySet),
         fields |-> sh, size |-> SSize(sh), align |-> SAlign(sh),
         listing |-> [j \in 1..Len(l) |-> [key |-> l[j].key, name |-> l[j].name, id |-> l[j].id, ty |-> l[j].ty,
                                            byval |-> l[j].byval, abs |-> l[j].abs, path |-> NamePath(sh, l[j].pos)]],
         names |-> SetToSeq({[q |-> k, first |-> FirstKey(l, k)] : k \in KeysOf(l) \cup {"zz"}}),
-        types |-> SetToSeq({[q |-> ty, first |-> FirstType(l, ty)] : ty \in TypesOf(l) \cup {"float64"}}),
+        types |-> SetToSeq({[q |-> ty, first |-> FirstType(l, ty)] : ty \in TypesOf(l) \cup {"uintptr"}}),
         sel |-> SetToSeq({[names |-> ns, ix |-> [i \in 1..Len(ns) |-> FirstKey(l, ns[i])]] : ns \in nameTuples}),
         selt |-> SetToSeq({[types |-> ts, ix |-> [i \in 1..Len(ts) |-> FirstType(l, ts[i])]] : ts \in typeTuples})]))
 ====
